@@ -127,6 +127,23 @@ def run(ctx):
                 wk.add(re.sub(r'[=]$', '', tk[0][1]))
         rk = set(s for bi, s in lib.str_consts(rf) if re.fullmatch(r'[a-z]+', s))
         ctx.ob('3f metadata-file-keys-agree', 'K8-table', wf.path, 'the metadata file writer emits version= / salt= / col<i>= and the reader recognises exactly those keys', wk == {'version', 'salt', 'col'} and {'version', 'salt', 'col'} <= rk, 'writer %s reader %s' % (sorted(wk), sorted(rk)))
+    # the reader keeps the order of the col<i>= lines (the writer emits them in index order and the reader ignores <i>)
+    if rf:
+        aggs = [st for bi in rf.normal_blocks() for st in rf.blocks[bi]['s'] if st['k'] == 'assign' and st['r']['k'] == 'agg' and st['r']['ak'] == 'Adt:options::Metadata']
+        madt = F.adts.get('options::Metadata')
+        ok = False
+        det = 'no Metadata aggregate'
+        if aggs and madt:
+            ci = [f['name'] for f in madt['variants'][0]['fields']].index('columns')
+            a = aggs[0]['r']['a'][ci]
+            locs = backward_slice(rf, [op_place(a)], through_calls=False).locals if op_place(a) else set()
+            pushes = [bi for bi, t in rf.calls() if call_matches(t, ['re:Vec.*::push$']) and t['a'] and op_place(t['a'][0]) is not None and (backward_slice(rf, [op_place(t['a'][0])], through_calls=False).locals & locs)]
+            sl = backward_slice(rf, [op_place(a)]) if op_place(a) else None
+            other = [c for c in (sl.calls if sl else []) if re.search(r'(BTreeMap|HashMap|BTreeSet|::sort|::collect|::reverse|into_values|::dedup)', c)]
+            ok = len(pushes) == 1 and not other and pushes[0] in rf.reaches(pushes[0])
+            det = 'pushes %s, other producers %s' % (pushes, other[:2])
+        ctx.ob('3g columns-kept-in-file-order', 'K4-provenance', rf.path,
+               'Metadata.columns is the vector the col<i>= lines were pushed onto in file order (no map, sort or re-collection in between): column i of the file is column i of the database', ok, det)
     # ------------------------------------------------ 4. administration touches only its column
     df = ctx.body('column::Column::drop_files')
     if df:
